@@ -55,6 +55,11 @@ abbrev Heap := List Entry
 structure IdxDef where
   cols : List Nat
   unique : Bool := false
+  /-- Go: `Index.PrefixLens` (`KEY (s(4))`), parallel to `cols`, 0 = the whole column. The storage
+  does **not** use it: `rowToIndexStorage` evaluates the index expressions on the row and stores the
+  full values (`extVals` below), `sortSecondaryIndexes` and the index scan's range filter read those
+  full values. Prefix lengths only enter the uniqueness checks (`columnsMatch`, C14). -/
+  pfx : List Nat := []
   deriving DecidableEq, Repr, Inhabited
 
 /-- static description of a table: logical schema, secondary indexes (`TableData.indexes`, in a
